@@ -8,6 +8,8 @@ git -C /repo apply /verif/seeded/$name/patch.diff || { echo "patch does not appl
 ./check $prop --tier $tier > /tmp/seedtest-$name-$prop.log 2>&1
 rc=$?
 git -C /repo checkout -- .
+# regenerate the translator's tables from the restored tree (they are tracked files)
+python3 /verif/tools/extract_tables.py > /dev/null 2>&1
 # rebuild the harness against the restored tree, so that no later run uses a binary with the seeded change
 (cd /verif/harness && RUSTFLAGS="--cfg resvg_verif" cargo build --offline -q 2>/dev/null)
 if [ "$prop" = C20 ]; then (cd /repo && RUSTFLAGS="" cargo build --offline -q --config profile.dev.opt-level=2 -p resvg -p usvg --bins --target-dir /verif/harness/target/cli 2>/dev/null); fi
